@@ -246,7 +246,7 @@ def main(prop: str, tier: str) -> int:
     # the same combination reached through several families is checked once
     behs = sorted({json.dumps({'cls': json.loads(b)['cls'], 'sel': json.loads(b)['sel']}) for b in behs})
     with mp.Pool(16) as pool:
-        for out in pool.imap_unordered(_chunk, list(common.chunked(behs, 200))):
+        for out in common.gmap(pool, rep, _chunk, list(common.chunked(behs, 200))):
             for kind, msg, b in out:
                 if kind == 'machinery':
                     rep.machinery_error(msg)
